@@ -588,6 +588,15 @@ Theorem C18_generic_error_default :
 Proof. exact New_error_default. Qed.
 Print Assumptions C18_generic_error_default.
 
+(** 39'. ... and only the FIRST `destructive` block and its FIRST `error` attribute count (Resource.Resource / Resource.Attr). *)
+Theorem C18_generic_error_first :
+  forall (ty : name) (attrs : list (name * bool)) (rest : list gblock),
+  ty = s_destructive ->
+  New_error ((ty, attrs) :: rest) =
+  match find (fun a => name_eqb (fst a) s_error) attrs with None => true | Some a => snd a end.
+Proof. exact New_error_first. Qed.
+Print Assumptions C18_generic_error_first.
+
 (** 40. The full completeness statement is false at schema level too: DROP SCHEMA s1; CREATE SCHEMA s1; DROP SCHEMA s1
     (history Drop, Add, Drop of a schema that existed before the file) -> no DS101, no error. *)
 Theorem C18_generic_refuted_readded_schema :
